@@ -46,6 +46,19 @@ pub fn eval(op: &str, a: &[&str]) -> Option<String> {
 }
 
 pub fn gen(ctx: &Ctx, rng: &mut Rng, out: &mut Vec<String>) {
+    // operator rows whose far tail lies many orders of magnitude below the rest (1e-13 … 1e-40): every coefficient is compared with
+    // its own exact value, not only with the scale of the row
+    for (n, k, m) in [(100usize, 50usize, 40usize), (100, 10, 60), (90, 40, 40), (200, 100, 30), (60, 30, 50), (300, 20, 100)] {
+        out.push(format!("c03.row\t{}\t{}\t{}", n + 1, k, m + 1));
+    }
+    // finite entries whose TOTAL is not finite in binary64 (2^1023 + 2^1023): every projected entry is a finite mixture
+    {
+        let h = f64::from_bits(0x7fe0000000000000); let q = f64::from_bits(0x7fd0000000000000);
+        out.push(format!("c03.project\t3\t{}\t2", bits(&[h, h, 0.0])));
+        out.push(format!("c03.project\t3\t{}\t2", bits(&[h, q, h])));
+        out.push(format!("c03.project\t3,3\t{}\t2,2", bits(&[q, 0.0, q, 0.0, q, 0.0, q, 0.0, q])));
+        out.push(format!("c03.project\t5\t{}\t3", bits(&[h, 0.0, q, 0.0, h])));
+    }
     // call histories on one spectrum object (queries, in-place edits, clones, replacement by its own fold / marginal / projection)
     crate::stat::gen_hist(rng, if ctx.tier_thorough { 600 } else { 60 }, 4, out);
     // whole operator: every admissible target of every shape in the grid
